@@ -71,8 +71,12 @@ pub fn setup_namespace() {
         sh(&format!("ip -6 addr add fd00::10:{}/128 dev lo nodad", i));
         sh(&format!("ip -6 addr add fd00::20:{}/128 dev lo nodad", i));
     }
-    sh("ip addr add 192.0.2.7/32 dev lo");
-    sh("ip -6 addr add 2001:db8::7/128 dev lo nodad");
+    for a in ["192.0.2.7", "192.0.2.200", "192.0.3.1", "10.0.0.1"] {
+        sh(&format!("ip addr add {}/32 dev lo", a));
+    }
+    for a in ["2001:db8::7", "2001:db8::100"] {
+        sh(&format!("ip -6 addr add {}/128 dev lo nodad", a));
+    }
     sh("mkdir -p /var/lib/erbium && mount -t tmpfs tmpfs /var/lib/erbium");
 }
 
@@ -874,7 +878,7 @@ pub fn main(args: &[String]) {
     quiet_panics_keep_log();
     match args.first().map(|s| s.as_str()) {
         Some("dns") => dns(&args[1..]),
-        Some("http") => crate::righttp::http(&args[1..]),
+        Some("http") | Some("full") => crate::righttp::http(&args[1..]),
         Some("hostile") => hostile(&args[1..]),
         Some("conf") => conf(&args[1..]),
         _ => {
